@@ -110,6 +110,58 @@ pub enum Kind {
     Reversed,
     /// two-question requests: name of the first with type of the second question (never asked)
     MixedPair,
+    /// a reply from the right source with the right id whose question section is the given
+    /// ordered list (2 or 3 entries) of variants of the first asked question, see `Atom`
+    Multi([Atom; 3], u8),
+}
+
+/// One entry of a composed question section, relative to the first asked question.
+#[derive(Clone, Copy, Debug, PartialEq, Eq, Hash)]
+pub enum Atom {
+    /// exact echo (same bytes, same letter case as transmitted)
+    Exact,
+    /// copy with the case of the first letter flipped
+    Flip1,
+    /// copy with the case of the second letter flipped
+    Flip2,
+    OtherName,
+    OtherType,
+    OtherClass,
+}
+
+pub const ATOMS: [Atom; 6] = [Atom::Exact, Atom::Flip1, Atom::Flip2, Atom::OtherName, Atom::OtherType, Atom::OtherClass];
+
+impl Atom {
+    fn tag(self) -> &'static str {
+        match self {
+            Atom::Exact => "echo",
+            Atom::Flip1 => "flip1",
+            Atom::Flip2 => "flip2",
+            Atom::OtherName => "name",
+            Atom::OtherType => "type",
+            Atom::OtherClass => "class",
+        }
+    }
+}
+
+/// All ordered pairs over the six atoms and all ordered triples that contain the exact echo.
+pub fn multi_kinds() -> Vec<Kind> {
+    let mut v = vec![];
+    for a in ATOMS {
+        for b in ATOMS {
+            v.push(Kind::Multi([a, b, Atom::Exact], 2));
+        }
+    }
+    for a in ATOMS {
+        for b in ATOMS {
+            for c in ATOMS {
+                if [a, b, c].contains(&Atom::Exact) {
+                    v.push(Kind::Multi([a, b, c], 3));
+                }
+            }
+        }
+    }
+    v
 }
 
 /// Kinds used with single-question requests.
@@ -148,7 +200,20 @@ pub fn kinds_of(cfg: &UdpCfg) -> Vec<Kind> {
 }
 
 impl Kind {
-    pub fn name(self) -> &'static str {
+    /// One byte for the marker of scripted datagrams (diagnostic only).
+    pub fn code(self) -> u8 {
+        match self {
+            Kind::Multi(a, n) => 0x80 | (n << 5) | ((a[0] as u8 * 6 + a[1] as u8) & 0x1f),
+            k => KINDS.iter().chain(KINDS_2Q.iter()).position(|x| *x == k).unwrap_or(0x7f) as u8,
+        }
+    }
+    pub fn name(self) -> String {
+        if let Kind::Multi(a, n) = self {
+            return format!("questions[{}]", a[..n as usize].iter().map(|x| x.tag()).collect::<Vec<_>>().join(","));
+        }
+        self.base_name().to_string()
+    }
+    fn base_name(self) -> &'static str {
         match self {
             Kind::Genuine => "genuine",
             Kind::WrongIp => "wrong-ip",
@@ -173,10 +238,11 @@ impl Kind {
             Kind::SubsetLast => "only-last-question",
             Kind::Reversed => "questions-reversed",
             Kind::MixedPair => "name1-with-type2",
+            Kind::Multi(..) => "questions[..]",
         }
     }
     pub fn from_name(s: &str) -> Option<Kind> {
-        KINDS.iter().chain(KINDS_2Q.iter()).copied().find(|k| k.name() == s)
+        KINDS.iter().chain(KINDS_2Q.iter()).copied().chain(multi_kinds()).find(|k| k.name() == s)
     }
 }
 
@@ -435,6 +501,20 @@ fn build(kind: Kind, req: &[u8], server: SocketAddr, marker: [u8; 4]) -> (Vec<u8
             let q = Q { name: wirekit::flip_one_letter(&q0.name), qtype: q0.qtype, qclass: q0.qclass };
             (wirekit::response(id, &with_q0(q), &owner, marker), server)
         }
+        Kind::Multi(atoms, n) => {
+            let qs: Vec<Q> = atoms[..n as usize]
+                .iter()
+                .map(|a| match a {
+                    Atom::Exact => q0.clone(),
+                    Atom::Flip1 => Q { name: wirekit::flip_nth_letter(&q0.name, 0), ..q0.clone() },
+                    Atom::Flip2 => Q { name: wirekit::flip_nth_letter(&q0.name, 1), ..q0.clone() },
+                    Atom::OtherName => evil.clone(),
+                    Atom::OtherType => Q { qtype: if q0.qtype == 15 { 16 } else { 15 }, ..q0.clone() },
+                    Atom::OtherClass => Q { qclass: if q0.qclass == 3 { 1 } else { 3 }, ..q0.clone() },
+                })
+                .collect();
+            (wirekit::response(id, &qs, &owner, marker), server)
+        }
         Kind::SubsetLast => (wirekit::response(id, &[qlast], &owner, marker), server),
         Kind::Reversed => {
             let mut qs = asked.clone();
@@ -494,7 +574,7 @@ impl DnsUdpSocket for SimUdp {
         sock.queue.pop_front();
         let at_us = (tokio::time::Instant::now() - t0).as_micros() as u64;
         let request = sock.sent.last().cloned().unwrap();
-        let marker = [10, self.idx as u8, next.step as u8, next.kind as u8];
+        let marker = [10, self.idx as u8, next.step as u8, next.kind.code()];
         let (bytes, src) = build(next.kind, &request, server, marker);
         let examined_before = sock.examined;
         if next.kind != Kind::RecvError {
@@ -819,6 +899,7 @@ pub fn judge(case: &Case, planned: &[Planned], o: &Obs, l: &mut Local) -> Option
             Kind::Oversized => l.outcome("obs:udp-reply-with-extra-700-byte-record-accepted"),
             Kind::SubsetLast => l.outcome("obs:udp-reply-echoing-only-one-of-two-questions-accepted"),
             Kind::Reversed => l.outcome("obs:udp-reply-with-reversed-questions-accepted"),
+            Kind::Multi(..) => l.outcome(if case.rand { "obs:udp-reply-repeating-the-exact-question-accepted" } else { "obs:udp-reply-repeating-the-question-in-any-case-accepted-randomisation-off" }),
             _ => {}
         }
     }
@@ -983,6 +1064,9 @@ pub fn run_case(ctx: &Ctx, case: &Case, rt: &mut tokio::runtime::Runtime, l: &mu
     if case.cfg.name != "default" {
         l.outcome(&format!("udp:cfg:{}:{}", case.cfg.name, o.outcome_class()));
     }
+    if case.steps.iter().any(|s| matches!(s, Step::D { kind: Kind::Multi(..), .. })) {
+        l.outcome(&format!("udp:composed-question-section:rand-{}:{}", if case.rand { "on" } else { "off" }, o.outcome_class()));
+    }
     l.outcome(&format!("udp:transmissions={}", o.tx_us.len()));
     // non-trivial: a non-matching datagram was consumed before the genuine one was consumed
     if let Some(gi) = o.deliveries.iter().position(|d| d.kind == Kind::Genuine) {
@@ -1104,6 +1188,45 @@ pub fn run(ctx: &Ctx) {
         );
         let done = totals.executed.load(Ordering::SeqCst) - before;
         per_cfg.insert(cfg.name.to_string(), json!({"schedules": done, "max_len": max_len, "symbols": syms.len(), "retry_ms": cfg.r_ms(), "max_transmissions": cfg.max_tx()}));
+    }
+    // ---- composed question sections: a reply from the right source with the right id whose
+    // question section is an ordered pair / triple over {exact echo, two differently case-flipped
+    // copies, other name, other type, other class}. Family: every schedule of length <= 2 with at
+    // least one such datagram, and (thorough) every schedule of length 3 with exactly one, over
+    // all kinds addressed to the newest socket + wait; default and two-question configuration,
+    // randomisation on and off.
+    for cfg in configs().into_iter().filter(|c| c.name == "default" || c.name == "two-questions") {
+        let mut syms = vec![Step::Retry];
+        syms.extend(kinds_of(&cfg).into_iter().chain(multi_kinds()).map(|k| Step::D { kind: k, back: 0 }));
+        let max_len: usize = if thorough { 3 } else { 2 };
+        let before = totals.executed.load(Ordering::SeqCst);
+        ctx.par_run_init(
+            syms.len() as u64 + 1,
+            1,
+            |_| vsim::rt(),
+            |u, l, rt| {
+                let mut run_seq = |steps: &[Step]| {
+                    let multis = steps.iter().filter(|s| matches!(s, Step::D { kind: Kind::Multi(..), .. })).count();
+                    if multis == 0 || (steps.len() == 3 && multis != 1) {
+                        return;
+                    }
+                    let selftest = fnv64(format!("{steps:?}").as_bytes()) % 8 == 0;
+                    for rand in [false, true] {
+                        let case = Case { cfg: cfg.clone(), rand, tie: false, steps: steps.to_vec() };
+                        run_case(ctx, &case, rt, l, Some(&totals), selftest);
+                    }
+                };
+                if u == 0 {
+                    return;
+                }
+                let mut seq = vec![syms[u as usize - 1]];
+                if plannable(&cfg, &seq) {
+                    extend(&cfg, &syms, &mut seq, max_len, &mut run_seq);
+                }
+            },
+        );
+        let done = totals.executed.load(Ordering::SeqCst) - before;
+        per_cfg.insert(format!("{}+composed-question-sections", cfg.name), json!({"schedules": done, "max_len": max_len, "symbols": syms.len(), "composed_kinds": multi_kinds().len()}));
     }
     ctx.set("udp_configs", Value::Object(per_cfg));
     ctx.set("udp_schedules", json!(totals.executed.load(Ordering::SeqCst)));
